@@ -4,11 +4,12 @@
      code 1 = model and implementation disagree on a projected observable
      code 2 = the implementation's observation violates the executable spec
      code 3 = case outside the model's domain (not compared)
+     code 4 = the implementation violates the spec in a way listed in known_findings.json (class number)
    The second number identifies the step / clause. *)
 From Coq Require Import List NArith.
 Import ListNotations.
 
-Inductive verdict := Pass | Mismatch (where_ : nat) | SpecFail (clause : nat) | OutOfDomain (why : nat).
+Inductive verdict := Pass | Mismatch (where_ : nat) | SpecFail (clause : nat) | OutOfDomain (why : nat) | Known (finding : nat).
 
 Definition code_of (v : verdict) : option (nat * nat) :=
   match v with
@@ -16,6 +17,7 @@ Definition code_of (v : verdict) : option (nat * nat) :=
   | Mismatch w => Some (1, w)
   | SpecFail c => Some (2, c)
   | OutOfDomain w => Some (3, w)
+  | Known k => Some (4, k)
   end.
 
 Fixpoint run_cases {A} (judge : A -> verdict) (cs : list (nat * A)) : list (nat * (nat * nat)) :=
